@@ -461,7 +461,8 @@ Section Core.
   Definition mutate_value_body (m : mv_args) : M val :=
       let use_new := negb (is_missing (mv_new m)) && negb (match mv_new m with VEmpty => true | _ => false end) in
       let value0 := if use_new then mv_new m else if mv_replace m then VMissing else mv_old m in
-      let prepare := if use_new then mv_prepare m else PNone in
+      (* old values have already been prepared: suppressed only when the old value is used *)
+      let prepare := if use_new || mv_replace m then mv_prepare m else PNone in
       value1 <- (match prepare with
                  | PNone => ret value0
                  | PAttr f => apply_fn f value0
@@ -690,7 +691,7 @@ Section Core.
     ok <- check_typeM ct item (item_type (a_ty sp)) ;;
     if negb ok then fail ValueErr else
     p <- read_set coll ;;
-    xs1 <- (if py_truthy index then set_discard (snd p) index else ret (snd p)) ;;
+    xs1 <- (if negb (is_missing index) then set_discard (snd p) index else ret (snd p)) ;;
     b <- set_mem xs1 item ;;
     write (fst p) (OSet (if b then xs1 else xs1 ++ [item])).
 
@@ -785,11 +786,15 @@ Section Core.
   (* utils/mutation.py:prepare_attr_value *)
   Definition prepare_attr_value (sp : attr_spec) (inst : loc) (value : val)
              (attrs : option (list (aid * val))) : M val :=
-    v <- rec (KMutateValue
-                (mkmv VMissing value false
-                      (match a_prepare sp with Some f => PAttr f | None => PNone end)
-                      attrs (Some (ctor_of_ty (a_ty sp))) (Some (a_ty sp)) None [] false)) ;;
-    if ty_is_collection (a_ty sp) then coll_prepare sp inst v else ret v.
+    match value with
+    | VUnchanged => ret VUnchanged
+    | _ =>
+      v <- rec (KMutateValue
+                  (mkmv VMissing value false
+                        (match a_prepare sp with Some f => PAttr f | None => PNone end)
+                        attrs (Some (ctor_of_ty (a_ty sp))) (Some (a_ty sp)) None [] false)) ;;
+      if ty_is_collection (a_ty sp) then coll_prepare sp inst v else ret v
+    end.
 
   (* methods/core.py:SetAttrMethod *)
   Definition setattr_ (l : loc) (a : aid) (v : val) (force skip : bool) : M val :=
@@ -933,6 +938,13 @@ Section Ops.
     c <- getattr_default ct l (a_name sp) ;;
     if is_missing c || inplace then ret c else protect ct c.
 
+  (* methods/scalar.py:_current_value, evaluated lazily (only when mutate_value
+     uses old_value): the value currently held, protected from mutation unless
+     mutating in place or the attribute is do_not_copy *)
+  Definition current_value (l : loc) (sp : attr_spec) (inplace used : bool) : M val :=
+    v <- getattr_default ct l (a_name sp) ;;
+    if inplace || a_dnc sp || negb used then ret v else protect ct v.
+
   Definition with_attr (l : loc) (sp : attr_spec) (new : val)
              (attrs : option (list (aid * val))) (inplace : bool) : M val :=
     v <- prepare_attr_value ct rec sp l new attrs ;;
@@ -944,14 +956,18 @@ Section Ops.
     | HWith a =>
         r <- spec_for l a ;; with_attr l (snd r) (pos0 h) (h_kw h) (h_inplace h)
     | HUpdate a =>
-        r <- spec_for l a ;; let sp := snd r in
-        old <- getattr_default ct l a ;;
-        v <- rec (KMutateValue (mkmv old (pos0 h) false PNone (h_kw h)
-                                     (Some (ctor_of_ty (a_ty sp))) (Some (a_ty sp)) None [] false)) ;;
-        with_attr l sp v None (h_inplace h)
+        match pos0 h with
+        | VUnchanged => ret (VRef l)
+        | _ =>
+          r <- spec_for l a ;; let sp := snd r in
+          old <- current_value l sp (h_inplace h) (is_sentinel (pos0 h)) ;;
+          v <- rec (KMutateValue (mkmv old (pos0 h) false PNone (h_kw h)
+                                       (Some (ctor_of_ty (a_ty sp))) (Some (a_ty sp)) None [] false)) ;;
+          with_attr l sp v None (h_inplace h)
+        end
     | HTransform a =>
         r <- spec_for l a ;; let sp := snd r in
-        old <- getattr_default ct l a ;;
+        old <- current_value l sp (h_inplace h) true ;;
         v <- rec (KMutateValue (mkmv old VMissing false PNone None
                                      (Some (ctor_of_ty (a_ty sp))) (Some (a_ty sp))
                                      (match h_fn h with Some f => Some (XFn f, None) | None => None end)
@@ -1026,6 +1042,7 @@ Section Ops.
     | HWithoutItem a =>
         r <- spec_for l a ;; let sp := snd r in
         c <- mk_mutator sp l (h_inplace h) ;;
+        c <- (if is_missing c then create_collection rec sp else ret c) ;;
         (match family_of (a_ty sp) with
          | Some FSeq =>
              ex <- seq_extractor ct sp c (pos0 h) true (tri_of (h_by_index h)) ;;
